@@ -458,7 +458,87 @@ func (u *Unit) runDefers(st *State, from int) []*State {
 	return cur
 }
 
+// tailInline: `return f(args)` with an inlinable callee is executed path by path (no merging of the callee's returns).
+func (u *Unit) tailInline(st *State, x *ast.ReturnStmt) bool {
+	if len(x.Results) != 1 || u.inlining >= 3 {
+		return false
+	}
+	call, ok := ast.Unparen(x.Results[0]).(*ast.CallExpr)
+	if !ok {
+		return false
+	}
+	if tv, ok := u.info().Types[ast.Unparen(call.Fun)]; ok && tv.IsType() {
+		return false
+	}
+	fn := u.calleeFunc(call)
+	if fn == nil || fn.Name() == "verifPoint" {
+		return false
+	}
+	key := funcKey(fn)
+	if u.eng.contractFor(key) != nil || u.eng.ioFallback(fn) != nil || u.isDroppedCall(fn) {
+		return false
+	}
+	fd, pk := u.eng.findDecl(fn)
+	if fd == nil || fd.Body == nil || !u.eng.inlinable(fd) {
+		return false
+	}
+	sig := fn.Type().(*types.Signature)
+	if sig.Variadic() {
+		return false
+	}
+	var recv *Val
+	if sig.Recv() != nil {
+		se, ok := ast.Unparen(call.Fun).(*ast.SelectorExpr)
+		if !ok {
+			return false
+		}
+		sel, ok := u.info().Selections[se]
+		if !ok {
+			return false
+		}
+		base := u.eval(st, se.X)
+		idx := sel.Index()
+		if len(idx) > 1 {
+			base = u.walkFields(st, base, idx[:len(idx)-1], se)
+		}
+		recv = &base
+	}
+	var args []Val
+	for i, a := range call.Args {
+		v := u.eval(st, a)
+		if i < sig.Params().Len() {
+			v = u.coerce(st, v, sig.Params().At(i).Type())
+		}
+		args = append(args, v)
+	}
+	if len(args) != sig.Params().Len() {
+		return false
+	}
+	if _, done := u.builtinModel(st, call, fn, key, recv, args); done {
+		return false
+	}
+	u.note("inlined", key)
+	fr := u.topFrame()
+	oldPkg, oldFile := u.pkg, u.curFile
+	u.pkg = pk
+	rets := u.inlineBodyStates(st, fd.Type, fd.Body, fd.Recv, recv, args, sig)
+	u.pkg, u.curFile = oldPkg, oldFile
+	for _, r := range rets {
+		vals := r.vals
+		for i := range vals {
+			if i < fr.sig.Results().Len() {
+				vals[i] = u.coerce(r.st, vals[i], fr.sig.Results().At(i).Type())
+			}
+		}
+		u.finishReturn(r.st, vals)
+	}
+	return true
+}
+
 func (u *Unit) execReturn(st *State, x *ast.ReturnStmt) {
+	if u.tailInline(st, x) {
+		return
+	}
 	fr := u.topFrame()
 	var vals []Val
 	n := fr.sig.Results().Len()
